@@ -39,7 +39,7 @@ CLAIMS = {
         "technique": "AST extraction of constant setter arguments per (arch branch, convention case) compared with an ABI oracle table",
     },
     "C08": {
-        "text": "Decides capture/replay coverage: every node-creating Builder override is replayed by serialize_to and every node kind dispatched; options/extra register/comment are restored from the node before _emit, operands passed positionally and operands 3..5 refreshed per node; _emit stores everything in the node; the five list-editing functions agree on links, list ends, cursor and dirty flag. Does not decide byte identity or the argument round trip of data nodes.",
+        "text": "Decides capture/replay coverage: every node-creating Builder override is replayed by serialize_to and every node kind dispatched; options/extra register/comment are restored from the node before _emit, operands passed positionally and operands 3..5 refreshed per node; _emit stores everything in the node; the five list-editing functions agree on links, list ends, cursor and dirty flag. The arguments of embed_label / embed_label_delta round-trip positionally through node constructor, field and accessor. Does not decide byte identity.",
         "design_ref": "DESIGN.md section 3 / C08",
         "note": _TB,
         "technique": "call-graph coverage, argument provenance tracing, structural pairing of link assignments",
